@@ -687,6 +687,7 @@ def run(ctx: Ctx):
                 "n, m >= 2; distinct = canonical JSON of the instance")
     ctx.proof_step(["C09"])
     if (COQ / "Props" / "C09_deep.v").exists(): ctx.proof_step(["C09"], props_file="Props/C09_deep.v")
+    if (COQ / "Props" / "C09_deep2.v").exists(): ctx.proof_step(["C09"], props_file="Props/C09_deep2.v")
     big = ctx.tier == "thorough"
     n_mcf = ctx.budget(420, 6000)
     n_ns = ctx.budget(420, 6000)
